@@ -156,6 +156,15 @@ pub fn run_history_opts<K: Kit>(kit: &K, h: &History, keep_events: bool, budget:
     let mut checker: Option<usize> = None;
     // problem-definition objects are created once per problem and re-used (same Arc)
     let mut objects: Vec<Option<crate::drv::Installed<K>>> = vec![None; h.problems.len()];
+    // a problem whose goal spec equals that of a problem installed earlier shares that
+    // problem's goal and space objects (same `Arc`s), as a user's second query would
+    let fresh = |d: &Drv<K>, objects: &Vec<Option<crate::drv::Installed<K>>>, i: usize| -> Result<crate::drv::Installed<K>, String> {
+        let donor = objects.iter().enumerate().find_map(|(j, o)| o.as_ref().filter(|_| j != i && h.problems[j].goal == h.problems[i].goal && h.problems[j].spec == h.problems[i].spec));
+        match donor {
+            Some(prev) => d.install_sharing(prev, &h.problems[i], h.starts_override.clone()),
+            None => d.install_starts(&h.problems[i], mode(), h.starts_override.clone()),
+        }
+    };
     for op in &h.ops {
         let before_nonempty = matches!(d.snapshot(), Snap::Roadmap(r) if !r.is_empty());
         let (s0, q0) = {
@@ -171,7 +180,7 @@ pub fn run_history_opts<K: Kit>(kit: &K, h: &History, keep_events: bool, budget:
             Op::Setup(i) => {
                 let inst = match &objects[*i] {
                     Some(prev) => d.reinstall(prev, &h.problems[*i])?,
-                    None => d.install_starts(&h.problems[*i], mode(), h.starts_override.clone())?,
+                    None => fresh(&d, &objects, *i)?,
                 };
                 objects[*i] = Some(inst.clone());
                 let r = d.setup(inst);
@@ -182,7 +191,7 @@ pub fn run_history_opts<K: Kit>(kit: &K, h: &History, keep_events: bool, budget:
             Op::SetupMixed(i, j) => {
                 let base = match &objects[*i] {
                     Some(prev) => prev.clone(),
-                    None => d.install_starts(&h.problems[*i], mode(), h.starts_override.clone())?,
+                    None => fresh(&d, &objects, *i)?,
                 };
                 let inst = d.reinstall(&base, &h.problems[*j])?;
                 objects[*i] = Some(inst.clone());
@@ -197,7 +206,7 @@ pub fn run_history_opts<K: Kit>(kit: &K, h: &History, keep_events: bool, budget:
                 }
                 let inst = match &objects[*i] {
                     Some(prev) => prev.clone(),
-                    None => d.install_starts(&h.problems[*i], mode(), h.starts_override.clone())?,
+                    None => fresh(&d, &objects, *i)?,
                 };
                 objects[*i] = Some(inst.clone());
                 let r = d.set_problem_definition(inst);
